@@ -110,6 +110,11 @@ fn gen_size(r: &mut Rng, g: &Geo, st: &SimTopic, p: &Profile) -> u64 {
     if c < p.multi_unit_pct {
         // more than one unit
         let units = 1 + r.below(2);
+        if r.below(100) < 45 {
+            // payload just below a multiple of the unit: header + payload crosses into the next unit (or just does not)
+            let d = *r.pick(&[1u64, 2, 100, 255, 256, 257, 300]);
+            return ((units + 1) * g.bs - d).min(g.max_alloc - g.meta);
+        }
         return (units * g.bs + r.below(g.bs / 2)).min(g.max_alloc - g.meta);
     }
     if p.reclaim_pct > 0 && c < 75 {
